@@ -19,7 +19,8 @@ def rangeStep (o : OpLine) : String :=
     match o.nat? "size", o.nat? "mode", o.nat? "first", o.nat? "second" with
     | some sz, some m, some f, some s =>
       let rd := if o.get? "api" == some "parts" then readParts else readRange
-      match rd (detPayload sz sz) (min sz 100) m f s with
+      let pl := if o.get? "kind" == some "fstreezs" then semiPayload sz sz else detPayload sz sz
+      match rd pl (min sz 100) m f s with
       | .ok bytes => s!"=> ok n={bytes.length} sum={fnv32a bytes}"
       | .error e => "=> err " ++ errClassOf e
     | _, _, _, _ => "=> bad-op"
